@@ -384,6 +384,12 @@ LAW_VALUES.update({"blame-palette": "#010203 #040506", "file-added-label": "v_cl
                    "word-diff-regex": "v_cli", "syntax-theme": "GitHub"})
 
 
+REF_STYLE_OPTS = ["minus-style", "plus-style", "zero-style", "minus-emph-style", "plus-emph-style", "file-style",
+                  "hunk-header-style", "commit-style", "line-numbers-zero-style", "grep-match-line-style",
+                  "blame-code-style", "inline-hint-style", "whitespace-error-style",
+                  "merge-conflict-ours-diff-header-style"]
+
+
 def run_laws(task):
     """(1) the command line wins over every built-in feature: the value --show-config reports for `--O=v` is the same
     with and without a feature enabled (by flag, --features or DELTA_FEATURES), with and without a gitconfig file;
@@ -467,6 +473,28 @@ def run_laws(task):
                                      "the [delta] section gives %r" % (env["git_config_parameters"], label, diff[0],
                                                                       got.get(diff[0]), key, v, ref.get(diff[0])),
                                      b0 + ["--config=" + cf], env)
+        elif which == "reference" and cfgmode == "config":
+            # a style option whose value names another key of the [delta] section (`plus-style = my-own-style`) has the
+            # value of that key: the effective value comes from the gitconfig source all the same
+            cfg2 = os.path.join(home, "ref.gitconfig")
+            b0 = ["--paging=never", "--detect-dark-light=never", "--dark"]
+            for o in REF_STYLE_OPTS:
+                for val in ("bold 101 102", "raw", "syntax 103"):
+                    with open(cfg2, "w") as f:
+                        f.write("[delta]\n    %s = %s\n" % (o, val))
+                    ref = sc(b0 + ["--config=" + cfg2])
+                    for shape, text in (("main", "[delta]\n    %s = my-own-style\n    my-own-style = %s\n" % (o, val)),
+                                        ("feature", "[delta]\n    features = ft\n    my-own-style = %s\n[delta \"ft\"]\n    %s = my-own-style\n" % (val, o))):
+                        with open(cfg2, "w") as f:
+                            f.write(text)
+                        got = sc(b0 + ["--config=" + cfg2])
+                        n += 1
+                        distinct.add((o, val, shape))
+                        diff = sorted(k for k in ref if ref.get(k) != got.get(k)) or sorted(k for k in got if k not in ref)
+                        if diff:
+                            note("style-reference-not-resolved:" + shape, "%s = my-own-style with my-own-style = %s (%s) gives %s = %r; "
+                                 "%s = %s gives %r" % (o, val, shape, diff[0], got.get(diff[0]), o, val, ref.get(diff[0])),
+                                 b0 + ["--config=" + cfg2], {"gitconfig_text": text})
         elif which == "three-ways":
             # a built-in feature is the same feature however it is enabled: by its flag, by --features, by
             # DELTA_FEATURES (features it enables in turn included)
@@ -554,7 +582,7 @@ def main(tier):
     tasks = [(seeds, cases[i:i + step], deadline) for i in range(0, len(cases), step)]
     res = explore.pmap(run_task, tasks)
     dres = explore.pmap(run_determinism, [(list(range(8 if tier == "quick" else 32)), deadline)])
-    lres = explore.pmap(run_laws, [("cli-wins", deadline), ("last-listed", deadline), ("independence", deadline), ("three-ways", deadline), ("gcp", deadline)])
+    lres = explore.pmap(run_laws, [("cli-wins", deadline), ("last-listed", deadline), ("independence", deadline), ("three-ways", deadline), ("gcp", deadline), ("reference", deadline)])
     n = sum(r["n"] for r in res)
     orders = set()
     distinct = set()
